@@ -7,7 +7,7 @@ from lxml import etree
 from harness.core import Result
 from harness import xsdgen, xmlcanon, enginea, valgen
 
-LEAN_MODULES = ["ZeepProofs.C01", "ZeepProofs.C01Choice", "ZeepProofs.C01Repeat", "ZeepProofs.C01Values", "ZeepProofs.C01All", "ZeepProofs.C01Nested", "ZeepProofs.C01ChoiceRepeat"]
+LEAN_MODULES = ["ZeepProofs.C01", "ZeepProofs.C01Choice", "ZeepProofs.C01Repeat", "ZeepProofs.C01Values", "ZeepProofs.C01All", "ZeepProofs.C01Nested", "ZeepProofs.C01ChoiceRepeat", "ZeepProofs.C01General"]
 NS = "Zeep.Xsd."
 THEOREMS = [NS + t for t in ("c01_elem_roundtrip", "c01_flat_sequence_roundtrip", "c01_record_roundtrip", "c01_nested_record_roundtrip",
                               "c01_absent_optional_reads_none", "c01_empty_repetition_reads_empty", "c01_k8_counterexample",
@@ -17,7 +17,7 @@ THEOREMS = [NS + t for t in ("c01_elem_roundtrip", "c01_flat_sequence_roundtrip"
                               "allMembers_pool", "dec_record_all", "c01_all_record_roundtrip", "c01_all_record_roundtrip_root",
                               "member_seq_once", "member_seq_absent", "member_group_once", "c01_record_with_nested_particles_roundtrip",
                               "choiceLoop_picks", "member_choice_repeated", "c01_record_with_repeated_choices_roundtrip",
-                              "c01_record_with_repeated_choices_roundtrip_root")] + [
+                              "c01_record_with_repeated_choices_roundtrip_root", "dec_simpleContent", "c01_general_roundtrip", "c01_general_roundtrip_root")] + [
     "Zeep.Bind." + t for t in ("render_is_reference_serialisation", "c01_values_roundtrip", "serList_trim")]
 LEVEL = "proof"
 MANIFEST = dict(
@@ -30,7 +30,7 @@ MANIFEST = dict(
     text="The model's decoder is proved to invert the model's serialiser on element repetitions with any occurrence bounds, on flat sequences of "
          "distinctly named declarations and on records nested to arbitrary depth — sequences whose members are single / optional / repeated leaf "
          "or record-typed elements and non-repeating choices between such elements (a branch taken, or an optional choice left out), with "
-         "attributes; and repeated nested sequences whose rounds start with a single required element and end with a non-empty member (ZeepProofs/C01Repeat.lean: seqRound_full - one complete round followed by anything that cannot be mistaken for its last member; seqRound_skip - on a deque starting with none of its names a round ends the repetition or consumes nothing, never raises; seqLoop_rounds - the loop returns exactly the rounds whatever maxOccurs); repeating choices (ZeepProofs/C01ChoiceRepeat.lean: choiceLoop_picks - in every round exactly the branch carrying the next node's name consumes, exactly one node; the loop returns exactly the picks and stops at maxOccurs, at the end of the input, or in front of a foreign name); the sequence argument (seqRound_members, dec_record_of_members) is generic in the kind of member; non-repeating nested sequences and groups as members (ZeepProofs/C01Nested.lean: xs:group ref and inner xs:sequence, flattened by zeep, one round in the decoder; an optional one left out); records whose content model is xsd:all over distinctly named elements (ZeepProofs/C01All.lean: the per-tag queues of All.parse_xmlelements are worked through member by member and end empty); an absent optional decodes to no item, an empty repetition to the empty list. At the level of call arguments: render_is_reference_serialisation proves, for every record signature without nillable elements and every argument tree without xsd.Nil, that Bind.emitTy (the model of construct-then-render tied to zeep by C12) emits exactly serItem (toTy signature) (itemOf arguments); c01_values_roundtrip composes it with the round trip; toTy / itemOf (ZeepModel/Xsd/Denote.lean) are compared on every C12 run with the type zeep compiled and with the model's decode of what zeep rendered (driver op bind.denote). Every run ties the model to zeep: values "
+         "attributes; and repeated nested sequences whose rounds start with a single required element and end with a non-empty member (ZeepProofs/C01Repeat.lean: seqRound_full - one complete round followed by anything that cannot be mistaken for its last member; seqRound_skip - on a deque starting with none of its names a round ends the repetition or consumes nothing, never raises; seqLoop_rounds - the loop returns exactly the rounds whatever maxOccurs); repeating choices (ZeepProofs/C01ChoiceRepeat.lean: choiceLoop_picks - in every round exactly the branch carrying the next node's name consumes, exactly one node; the loop returns exactly the picks and stops at maxOccurs, at the end of the input, or in front of a foreign name); the sequence argument (seqRound_members, dec_record_of_members) is generic in the kind of member, and ZeepProofs/C01General.lean puts the kinds together in one statement - c01_general_roundtrip: leaves, simple content with attributes, and records to any depth whose levels are sequences of any mix of the covered member kinds or xsd:all groups; non-repeating nested sequences and groups as members (ZeepProofs/C01Nested.lean: xs:group ref and inner xs:sequence, flattened by zeep, one round in the decoder; an optional one left out); records whose content model is xsd:all over distinctly named elements (ZeepProofs/C01All.lean: the per-tag queues of All.parse_xmlelements are worked through member by member and end empty); an absent optional decodes to no item, an empty repetition to the empty list. At the level of call arguments: render_is_reference_serialisation proves, for every record signature without nillable elements and every argument tree without xsd.Nil, that Bind.emitTy (the model of construct-then-render tied to zeep by C12) emits exactly serItem (toTy signature) (itemOf arguments); c01_values_roundtrip composes it with the round trip; toTy / itemOf (ZeepModel/Xsd/Denote.lean) are compared on every C12 run with the type zeep compiled and with the model's decode of what zeep rendered (driver op bind.denote). Every run ties the model to zeep: values "
          "are generated from the section-5 grammar with the wide leaf table (boundary values 0 / False / empty / extremes, list and restriction "
          "types, per-declaration forms, nillable, xsi:type substitution incl. mixed lists, xsd:any, recursive types through repeated choice and "
          "sequence), supplied as natives / dicts / value objects, rendered by zeep, decoded again and compared field by field with what was "
